@@ -651,7 +651,8 @@ class SymInt:
         return f'Sym({s.t})[{s.lo},{s.hi}]'
 
     def __format__(s, spec):
-        return repr(s)
+        from vf import symbytes
+        return symbytes.fmt_marker(s)       # f-strings used as struct formats carry the symbolic count
 
     @property
     def numerator(s): return s
@@ -810,7 +811,7 @@ class IntShim(metaclass=_IntMeta):
     @staticmethod
     def from_bytes(data, byteorder='big', *, signed=False):
         from vf import symbytes
-        if builtins.isinstance(data, symbytes.SymBytes):
+        if builtins.isinstance(data, (symbytes.View, symbytes.Buf)):
             return symbytes.bytes_to_int(data, byteorder, signed)
         return builtins.int.from_bytes(data, byteorder, signed=signed)
 
